@@ -5,6 +5,7 @@ import itertools
 import numpy as np
 
 from .. import coqio as cq
+from .. import dasksched
 from .. import gen
 from .. import gmmtrain as gt
 from ..impl import LogCounter, da, hexlist
@@ -55,7 +56,17 @@ def run(chk):
             before_v = np.array(m.variances, copy=True)
             if k == K:
                 break
+            before_w, before_mu = np.array(m.weights, copy=True), np.array(m.means, copy=True)
             m.fit(X)
+            # the M-step itself, parameter by parameter: weights max(n, eps)/T, means sum_px / max(n, eps); what is not updated stays put
+            nn = np.maximum(np.asarray(st.n, dtype=float), eps)
+            want_w = nn / float(st.t) if sw[2] else before_w
+            want_mu = np.asarray(st.sum_px) / nn[:, None] if sw[0] else before_mu
+            if not (np.allclose(np.asarray(m.weights), want_w, rtol=1e-10, atol=1e-300) and np.allclose(np.asarray(m.means), want_mu, rtol=1e-10, atol=1e-12 * (1 + np.abs(X).max()))
+                    and (sw[1] or np.array_equal(np.asarray(m.variances), before_v))):
+                chk.fail("after EM iteration %d with switches %s the weights / means are not n/T and sum_px/n of the E-step statistics (or a parameter that is not updated moved)"
+                         % (k + 1, sw), dict(ctx, iteration=k + 1, weights=hexlist(m.weights), expected_weights=hexlist(want_w), means=hexlist(m.means), expected_means=hexlist(want_mu)))
+                break
             T = gt.thr_matrix(m)
             count_floor = bool(np.any(np.asarray(st.n) < eps))
             var_floor = bool(sw[1] and np.any(np.asarray(m.variances) <= T))
@@ -124,6 +135,23 @@ def run(chk):
                 if cnl["steps"] != 2:
                     chk.fail("no iteration limit, threshold above every relative change: expected to stop at iteration 2, stopped at %d" % cnl["steps"],
                              dict(ctx, threshold=th, cvs=ctraj["cvs"]))
+    # ---- Dask blocks on isolated (serialising) workers, training ended by the iteration cap: the trained parameters come back to the caller
+    for j in range(3 if chk.tier == "quick" else 24):
+        w, mu, var, s, X = gt.gen_training(r, C=2, N=12, scale="unit")
+        C, D = mu.shape
+        cfgi = dict(w=w, mu=mu, var=var, thr=None, sw=(True, True, True), eps=eps, cap=2, cthr=None)
+        mi, _ = gt.build_machine(cfgi)
+        mn, _ = gt.build_machine(cfgi)
+        gt.run_fit(mn, X)
+        try:
+            dasksched.run_under(7 + j, True, lambda: mi.fit(da.from_array(X, chunks=((5, 7), (D,)))))
+        except Exception as e:
+            chk.fail("fit on Dask blocks under a serialising executor raises %r" % (e,), {"X": hexlist(X), "shape": [C, D]})
+            continue
+        chk.count(1, key=("isolated-cap-exit",))
+        if gt.well_conditioned(mn, X) and not (np.allclose(mi.means, mn.means, rtol=1e-8, atol=1e-10) and np.allclose(mi.weights, mn.weights, rtol=1e-8, atol=1e-12)):
+            chk.fail("training on Dask blocks with serialised tasks, ended by the iteration cap, does not return the 2-iteration model (means %s, in memory %s)"
+                     % (np.asarray(mi.means).tolist(), np.asarray(mn.means).tolist()), {"X": hexlist(X), "shape": [C, D], "w": hexlist(w), "mu": hexlist(mu), "var": hexlist(var)})
     # ---- continued training: a second fit() of the same object obeys the same rule as a fresh machine with the same parameters
     #      (the test is never made at the first iteration of a call; nothing of the previous call's history enters it);
     #      and Dask input whose row-chunk sizes are unknown (boolean-mask filtering) trains like the same rows in memory
@@ -166,6 +194,23 @@ def run(chk):
         if gt.well_conditioned(mb, Xkept) and not (np.allclose(La, Lb, rtol=1e-9, atol=1e-9) and np.allclose(ma.means, mb.means, rtol=1e-8, atol=1e-10)):
             chk.fail("training on a Dask array with unknown row-chunk sizes differs from training on the same rows in memory (reported %s vs %s)" % (La, Lb),
                      {"X": hexlist(X), "kept_rows": keep.tolist(), "shape": [C, D], "w": hexlist(w), "mu": hexlist(mu), "var": hexlist(var)})
+    # ---- the same training values in other containers / memory layouts (Fortran order, strided views, read-only memory, nested lists)
+    for j in range(3 if chk.tier == "quick" else 30):
+        w, mu, var, s, X = gt.gen_training(r, C=2, N=12, scale="unit")
+        C, D = mu.shape
+        cfgl = dict(w=w, mu=mu, var=var, thr=None, sw=(True, True, True), eps=eps, cap=2, cthr=None)
+        m0, _ = gt.build_machine(cfgl)
+        n0, L0, _ = gt.run_fit(m0, X)
+        for lname, Xl in gen.layouts(X):
+            ml, _ = gt.build_machine(cfgl)
+            try:
+                nl, Ll, _ = gt.run_fit(ml, Xl)
+            except Exception as e:
+                chk.fail("GMM training on a %s input raises %r" % (lname, e), {"layout": lname, "X": hexlist(X), "shape": [C, D]})
+                continue
+            chk.count(1, key=("layout", lname))
+            if not (nl == n0 and np.allclose(Ll, L0, rtol=1e-12, atol=1e-12) and np.allclose(ml.means, m0.means, rtol=1e-12, atol=1e-12)):
+                chk.fail("GMM training differs for the same values given as %s" % lname, {"layout": lname, "X": hexlist(X), "shape": [C, D]})
     # ---- other storage types of the training values (single precision with a common offset, narrow integers): training sees the VALUES;
     #      the run is the same as on the float64 copy, and in particular every iteration still raises the likelihood
     for j in range(8 if chk.tier == "quick" else 160):
